@@ -631,7 +631,6 @@ func TestC14RespacingAny(t *testing.T) {
 	})
 }
 
-
 // TestC14RespacingSequences: every short token sequence, derivable or not, with and without blanks.
 func TestC14RespacingSequences(t *testing.T) {
 	k1, k2 := h.N(6, 7), h.N(3, 4)
